@@ -377,7 +377,7 @@ OBLIGATIONS = [
        timeout=900, bound="second start_response(exc_info) with status '500 ' + 1..2 (thorough 3) arbitrary characters, exception "
                           "swallowed, head sent afterwards"),
     Ob("C09.status_tail.twin", "status_tail_twin", cases=[{"n": 2}], expect="refute", timeout=120),
-    Ob("C09.status_code", "status_code", cases={"quick": [{"n": 3}], "thorough": [{"n": 3}, {"n": 4}]}, timeout=1800,
+    Ob("C09.status_code", "status_code", cases={"quick": [{"n": 3}], "thorough": [{"n": 3}, {"n": 4}]}, timeout={"quick": 1800, "thorough": 3600},
        bound="status = 3 (thorough 4) characters from {2 0 CR LF NUL SP NBSP x U+0100 HTAB} followed by ' OK', nothing, or a single space, "
              "judged on the wire"),
     Ob("C09.header_name", "header_name", cases=[{"n": n} for n in (0, 1, 2)],
